@@ -173,6 +173,10 @@ def enum_member_in_test(t: ast.AST):
             return m
         if isinstance(t.ops[0], ast.In):
             return enum_member(t.left, "TokenisationPrefixes")
+        if isinstance(t.ops[0], (ast.NotEq, ast.IsNot)):
+            # a branch selected by "is not this prefix": part of the chain, but not the branch *of* that prefix
+            m = enum_member(t.comparators[0], "TokenisationPrefixes") or enum_member(t.left, "TokenisationPrefixes")
+            return f"not:{m}" if m is not None else None
     return None
 
 
